@@ -1,0 +1,18 @@
+//go:build verif
+// +build verif
+
+package jsonapi
+
+// VerifTrace, when non-nil, receives the keys visited by the map-ranging loops
+// of MarshalResource and URL.String, in the order the runtime produced them.
+//
+// It only exists in builds made with the "verif" build tag and is used by
+// external runtime monitors to record which map iteration orders were actually
+// exercised.
+var VerifTrace func(site, key string)
+
+func verifTrace(site, key string) {
+	if VerifTrace != nil {
+		VerifTrace(site, key)
+	}
+}
